@@ -8,6 +8,20 @@ HERE = os.path.dirname(os.path.dirname(os.path.abspath(__file__)))
 ALL = ["C%02d" % i for i in range(1, 21)]
 
 CHECKS = {
+ "C07": dict(
+  category="exploration",
+  text="Compiler oracle: for every accepted module of the workload (identifier-shape generator: field names next to the names "
+       "the generated views declare themselves, trailing underscores, has_ prefixes, names colliding under kCamelCase, "
+       "namespaces, parameters, inline and nested types; semantic-generator modules; the testdata corpus with imports) the "
+       "header(s) from the real back end plus a full-instantiation driver emitted from the final IR's names (explicit "
+       "instantiation of every view class, member templates Equals / UncheckedEquals / TryToCopyFrom / WriteToString / "
+       "UpdateFromText, every enumerator spelling and enum helper, a static_assert per compile-time constant against the IR value) "
+       "are compiled with g++-12 and clang++-14 under -std=c++11/14/17, enum traits on and off. Upstream shapes that do not compile "
+       "are known findings keyed by shape.",
+  note="Explicit instantiation with ReadWriteContiguousBuffer (bits views: a 64-bit BitBlock) stands for 'instantiating every view'; "
+       "quick rotates 2 of the 6 (compiler, -std) configurations per module, thorough uses all 6.",
+  technique="compiler-as-oracle on full-instantiation drivers generated from the IR",
+  design_ref="5/C07"),
  "C14": dict(
   category="exploration",
   text="Two-sided acceptance oracle by construction: modules composed of random realisable snippets that sit ON the documented "
